@@ -334,6 +334,9 @@ func additive(symbols []pr.IntNamedString, value int) (string, bool) {
 	}
 	var parts []string
 	for _, vs := range symbols {
+		if vs.Int == 0 { // only used for the value 0, handled above
+			continue
+		}
 		repetitions := value / vs.Int
 		parts = append(parts, strings.Repeat(symbol(vs.NamedString), repetitions))
 		value -= vs.Int * repetitions
